@@ -103,6 +103,14 @@ STRUCT_CASES = [
  "colvar {\n name q\n eigenvector {\n  atoms { atomNumbers 1 2 3 4 }\n  refPositions (0.0, 0.0, 0.0)\n  vector " + _REF4 + "\n }\n}\n",
  "colvar {\n name q\n orientation {\n  atoms { atomNumbers 1 2 3 4 }\n  refPositions (0.0, 0.0, 0.0) (1.0, 0.0, 0.0)\n }\n}\n",
  "colvar {\n name q\n distanceZ {\n  main { atomNumbers 1 2\n   centerToReference on\n   rotateToReference on\n   refPositions (0.0, 0.0, 0.0)\n  }\n  ref { atomNumbers 3 }\n }\n}\n",
+ # pairs of frequencies one of which divides (or is divided by) the other: a zero on either side
+ "abf {\n name b\n colvars r\n fullSamples 2\n historyFreq 5\n outputFreq 0\n}\n",
+ "abf {\n name b\n colvars r\n fullSamples 2\n historyFreq 0\n outputFreq 5\n}\n",
+ "abf {\n name b\n colvars r\n fullSamples 2\n historyFreq 5\n outputFreq 10\n}\n",
+ "abf {\n name b\n colvars r\n fullSamples 2\n historyFreq 4\n outputFreq 10\n}\n",
+ "metadynamics {\n name b\n colvars r\n hillWeight 0.1\n hillWidth 2.0\n newHillFrequency 3\n gridsUpdateFrequency 0\n outputFreq 0\n}\n",
+ "metadynamics {\n name b\n colvars r\n hillWeight 0.1\n hillWidth 2.0\n newHillFrequency 0\n gridsUpdateFrequency 3\n}\n",
+ "histogram {\n name b\n colvars r\n outputFreq 0\n}\n",
 ]
 
 
